@@ -193,17 +193,20 @@ Proof.
   intros n d q Hd E. destruct (exact_all_agree n d q Hd E) as (T & _). apply tuniq in T. unfold tquo in T. lia.
 Qed.
 
+Lemma quot_if0 : forall n d, (if isZero n then 0 else Z.quot n d) = Z.quot n d.
+Proof. intros n d. zcase n; [rewrite quot0|]; reflexivity. Qed.
+
 Lemma divexact_q_I_ex : Exact_quot anyZ divexact_q_I.
-Proof. intros n d q _ Hd E. unfold divexact_q_I, mpz_divexact. rewrite <- (quot_exact n d q Hd E). zcase n; [rewrite quot0|]; reflexivity. Qed.
+Proof. intros n d q _ Hd E. unfold divexact_q_I, mpz_divexact. rewrite quot_if0. apply quot_exact; assumption. Qed.
 Lemma divexact_I_ex : Exact_quot anyZ divexact_I.
 Proof. exact divexact_q_I_ex. Qed.
 Lemma divexact_q_ul_ex : Exact_quot in_u64 divexact_q_ul.
-Proof. intros n d q _ Hd E. unfold divexact_q_ul, mpz_divexact_ui. rewrite <- (quot_exact n d q Hd E). zcase n; [rewrite quot0|]; reflexivity. Qed.
+Proof. intros n d q _ Hd E. unfold divexact_q_ul, mpz_divexact_ui. rewrite quot_if0. apply quot_exact; assumption. Qed.
 Lemma divexact_ul_ex : Exact_quot in_u64 divexact_ul.
 Proof. exact divexact_q_ul_ex. Qed.
 Lemma divexact_q_l_ex : Exact_quot in_i64 divexact_q_l.
 Proof.
-  intros n d q H Hd E. unfold divexact_q_l, mpz_divexact_ui. rewrite <- (quot_exact n d q Hd E).
+  intros n d q H Hd E. rewrite <- (quot_exact n d q Hd E). clear E. unfold divexact_q_l, mpz_divexact_ui.
   zcase n; [rewrite quot0; reflexivity|]. cbv zeta. rewrite to_u64_abs64 by assumption. apply quot_abs_r; assumption.
 Qed.
 Lemma divexact_l_ex : Exact_quot in_i64 divexact_l.
@@ -225,27 +228,10 @@ Proof.
   destruct (Z.ltb_spec n 0); destruct (Z.eqb_spec (Z.abs (Z.rem n d)) 0); cbn [andb negb fst snd]; unfold is_eucl; cint; lia.
 Qed.
 
-(* the int64_t overload AS IS: correct for a positive divisor only *)
-Definition Eucl_divmod_pos (f : Z -> Z -> Z * Z) : Prop :=
-  forall n d, in_i64 d -> 0 < d -> is_eucl n d (fst (f n d)) (snd (f n d)) /\ in_i64 (snd (f n d)).
-Lemma divmod_l_eucl_partial : Eucl_divmod_pos divmod_l.
+(* the int64_t overload (body after cf0f25d): |b| through std::abs, q re-signed at the end; INT64_MIN included *)
+Lemma divmod_l_eucl : Eucl_divmod in_i64 divmod_l.
 Proof.
   intros n d H Hd. unfold divmod_l, mpz_tdiv_q_ui. rewrite to_u64_abs64 by assumption.
-  rewrite (Z.abs_eq d) by lia.
-  destruct (tspec n d ltac:(lia)) as (E & B & S). unfold tquo, trem in *.
-  assert (Sg : (0 <= n /\ 0 <= Z.rem n d) \/ (n < 0 /\ Z.rem n d <= 0)) by nia.
-  cbv zeta.
-  assert (R : to_i64 (Z.abs (Z.rem n d)) = Z.abs (Z.rem n d)) by (cint; lia).
-  rewrite R.
-  destruct (Z.ltb_spec n 0); destruct (Z.eqb_spec (Z.abs (Z.rem n d)) 0); cbn [andb negb fst snd]; unfold is_eucl; cint; lia.
-Qed.
-Lemma divmod_l_refuted : exists n d, in_i64 d /\ d <> 0 /\ ~ is_eucl n d (fst (divmod_l n d)) (snd (divmod_l n d)).
-Proof. exists (-7), (-2). split; [cint; lia|]. split; [lia|]. vm_compute. intros (E & _). discriminate E. Qed.
-
-(* ... and after frag/C02.fix-2.diff *)
-Lemma divmod_l_fixed_eucl : Eucl_divmod in_i64 divmod_l_fixed.
-Proof.
-  intros n d H Hd. unfold divmod_l_fixed, mpz_tdiv_q_ui. rewrite to_u64_abs64 by assumption.
   assert (Ha : Z.abs d <> 0) by lia.
   destruct (tspec n (Z.abs d) Ha) as (E & B & S). unfold tquo, trem in *. rewrite Z.abs_involutive in B.
   assert (Sg : (0 <= n /\ 0 <= Z.rem n (Z.abs d)) \/ (n < 0 /\ Z.rem n (Z.abs d) <= 0)) by nia.
@@ -276,29 +262,15 @@ Proof.
   - pose proof (Z.mod_pos_bound n d). cint. lia.
   - apply fr_of_val; [assumption|reflexivity].
 Qed.
-Lemma trem_w_fixed_tr : Abs_trunc_rem_word trem_w_fixed.
+Lemma trem_w_tr : Abs_trunc_rem_word trem_w.
 Proof.
-  intros n d H Hd. unfold trem_w_fixed, mpz_tdiv_ui. split.
+  intros n d H Hd. unfold trem_w, mpz_tdiv_ui. split.
   - pose proof (Z.rem_bound_abs n d Hd). cint. lia.
   - exists (Z.rem n d). split; [apply tr_of_val; [assumption|reflexivity]|reflexivity].
 Qed.
-Lemma crem_w_fixed_cr : Abs_ceil_rem_word crem_w_fixed.
+Lemma crem_w_cr : Abs_ceil_rem_word crem_w.
 Proof.
-  intros n d H Hd. unfold crem_w_fixed, mpz_cdiv_ui, mpz_cdiv_r. split.
+  intros n d H Hd. unfold crem_w, mpz_cdiv_ui, mpz_cdiv_r. split.
   - pose proof (Z.mod_pos_bound (- n) d). cint. lia.
   - exists (crem n d). split; [apply cr_of_val; [assumption|reflexivity]|reflexivity].
 Qed.
-(* AS IS the two are wired to each other's primitive *)
-Lemma trem_w_refuted : exists n d, in_u64 d /\ d <> 0 /\ forall r, trunc_remainder n d r -> trem_w n d <> Z.abs r.
-Proof.
-  exists 7, 3. split; [cint; lia|]. split; [lia|]. intros r (q & H). apply tuniq in H. destruct H as (_ & ->). vm_compute. discriminate.
-Qed.
-Lemma crem_w_refuted : exists n d, in_u64 d /\ d <> 0 /\ forall r, ceil_remainder n d r -> crem_w n d <> Z.abs r.
-Proof.
-  exists 7, 3. split; [cint; lia|]. split; [lia|]. intros r (q & H). apply cuniq in H. destruct H as (_ & ->). vm_compute. discriminate.
-Qed.
-(* what the two bodies do compute *)
-Lemma trem_w_is_ceil : Abs_ceil_rem_word trem_w.
-Proof. exact crem_w_fixed_cr. Qed.
-Lemma crem_w_is_trunc : Abs_trunc_rem_word crem_w.
-Proof. exact trem_w_fixed_tr. Qed.
